@@ -1573,6 +1573,11 @@ impl<'i, R: RuleType> ParserState<'i, R> {
     /// ```
     #[inline]
     pub fn stack_peek(self: Box<Self>) -> ParseResult<Box<Self>> {
+        // Once the call limit was hit, refused calls send the parse down paths it never takes
+        // otherwise; an empty stack there is not a grammar bug worth a panic.
+        if self.stack.is_empty() && self.reached_call_limit() {
+            return Err(self);
+        }
         let string = self
             .stack
             .peek()
@@ -1606,6 +1611,10 @@ impl<'i, R: RuleType> ParserState<'i, R> {
     /// ```
     #[inline]
     pub fn stack_pop(mut self: Box<Self>) -> ParseResult<Box<Self>> {
+        // See `stack_peek`.
+        if self.stack.is_empty() && self.reached_call_limit() {
+            return Err(self);
+        }
         let string = self
             .stack
             .pop()
